@@ -88,7 +88,9 @@ inline Tissue build_tissue(const Plan& pl, const V3& global_shift = V3()) {
         if (pl.geti(pre + "rot", 1)) m.apply(random_rotation(sr), V3());
         double jit = pl.get("jitter", 0); if (jit > 0) { double e = m.mean_edge(); for (auto& p : m.V) p += random_unit(sr) * (jit * e * sr.uni()); }   // break the symmetry of the generator shapes
         m.scale(s.radius); m.translate(s.center + global_shift);
-        cell_ptr c = make_cell(s.kind, m, (unsigned)k, T.types[s.kind]);
+        // ids the cells arrive with (the solver renumbers them): 0 = list position, 1 = with gaps, 2 = reversed
+        int ids = pl.geti("id_scheme", 0); unsigned cid = ids == 1 ? (unsigned)(3 * k + 2) : (ids == 2 ? (unsigned)(n - 1 - k) : (unsigned)k);
+        cell_ptr c = make_cell(s.kind, m, cid, T.types[s.kind]);
         c->initialize_cell_properties();      // throws for an invalid generated mesh: generator bug, propagates
         T.cells.push_back(c); T.specs.push_back(s);
         T.v0.push_back(geometry(view_of(*c)).volume);
